@@ -30,3 +30,5 @@ pub mod models;
 mod c13;
 #[cfg(kani)]
 mod c27;
+#[cfg(kani)]
+mod c36;
